@@ -88,7 +88,7 @@ def _measure(d, streams, tier, seed):
             elif name == "e2x":
                 for k in range(8):
                     jobs.append(ex.submit(run, i, [name, k, 8])); i += 1
-            elif name in ("corpus", "scan", "validx", "index", "lindex"):
+            elif name in ("corpus", "scan", "validx", "index", "lindex", "deep"):
                 jobs.append(ex.submit(run, i, [name, 0, arg if name == "validx" else 0])); i += 1
             else:
                 shards = max(1, min(12, n // 1500))
